@@ -2877,3 +2877,909 @@ func runOneCommitPerRequest(c *Ctx, rule string) {
 		c.Undecided(rule, "lake.Branch commit points", "fewer than five committing methods found ("+sprint(n)+")")
 	}
 }
+
+// ---- C02-J1: a repeated field name is resolved as the JSON reader resolves it.
+//
+// Valid JSON may repeat a key.  The JSON reader keeps the last value, in the position of the
+// first (ECMAScript, jq).  The ZSON parser reads the same text, so on a name it has already seen
+// it must overwrite the earlier field, not drop the later one.
+func runDuplicateFieldsLastWins(c *Ctx, rule string) {
+	p := c.P
+	c.Rule(rule, "in zson.Parser.matchFields the branch taken for a field name seen before stores the new field over the earlier one: `{\"a\":1,\"a\":2}` is {a:2} for both the ZSON and the JSON reader")
+	fn := p.Func("(*zson.Parser).matchFields")
+	if fn == nil {
+		c.Undecided(rule, "(*zson.Parser).matchFields", "anchor does not resolve")
+		return
+	}
+	found, ok := false, false
+	for _, b := range fn.Blocks {
+		for _, in := range b.Instrs {
+			lk, isLk := in.(*ssa.Lookup)
+			if !isLk || !lk.CommaOk {
+				continue
+			}
+			found = true
+			for _, r := range *lk.Referrers() {
+				ex, isEx := r.(*ssa.Extract)
+				if !isEx || ex.Index != 1 {
+					continue
+				}
+				for _, bb := range fn.Blocks {
+					if !trueEdgeDominatesOrSelf(ex, bb) {
+						continue
+					}
+					for _, ii := range bb.Instrs {
+						if st, isSt := ii.(*ssa.Store); isSt {
+							if _, isIA := st.Addr.(*ssa.IndexAddr); isIA {
+								ok = true
+							}
+						}
+					}
+				}
+			}
+		}
+	}
+	construct := "(*zson.Parser).matchFields on a repeated field name"
+	switch {
+	case !found:
+		c.Undecided(rule, construct, "the lookup of names already seen was not found")
+	case ok:
+		c.OK(rule, construct, fn.Pos(), "the later field replaces the earlier one in place")
+	default:
+		c.Fail(rule, construct, fn.Pos(), "a field whose name was seen before is dropped: `{\"a\":1,\"a\":2}` reads as {a:1} through the ZSON reader and as {a:2} through the JSON reader, although every valid JSON text must denote the same value for both")
+	}
+}
+
+// ---- C02-S3: a set literal is analysed into a set node.
+//
+// Only zson.Set nodes are normalised by the builder (sorted, duplicates dropped).  convertSet
+// returning any other node kind for a decorated set hands out a value whose bytes are not a valid
+// set.
+func runSetLiteralsBecomeSetNodes(c *Ctx, rule string) {
+	p := c.P
+	c.Rule(rule, "every node zson.Analyzer.convertSet returns is a *zson.Set (the node kind the builder normalises): a decorated set literal `|[3,1,2]|(|[int64]|)` yields sorted, duplicate-free set bytes like an undecorated one")
+	fn := p.Func("(zson.Analyzer).convertSet")
+	if fn == nil {
+		c.Undecided(rule, "(zson.Analyzer).convertSet", "anchor does not resolve")
+		return
+	}
+	n, bad := 0, 0
+	for _, b := range fn.Blocks {
+		for _, in := range b.Instrs {
+			ret, ok := in.(*ssa.Return)
+			if !ok || len(ret.Results) != 2 || !isNilConst(ret.Results[1]) {
+				continue
+			}
+			mi, ok := ret.Results[0].(*ssa.MakeInterface)
+			if !ok {
+				continue
+			}
+			n++
+			if nm := namedOf(mi.X.Type()); nm != "zson.Set" {
+				bad++
+				c.Fail(rule, "(zson.Analyzer).convertSet returns a "+nm+" node", ret.Pos(), "a set literal is turned into a node the builder does not normalise: `|[3,1,2]|(|[int64]|)` becomes a set value whose elements are unsorted (Validate: set elements not sorted), so ==, `in` and group-by on it disagree with the same set read from ZNG")
+			}
+		}
+	}
+	switch {
+	case n == 0:
+		c.Undecided(rule, "(zson.Analyzer).convertSet", "no successful return found")
+	case bad == 0:
+		c.OK(rule, "(zson.Analyzer).convertSet node kinds", fn.Pos(), sprint(n)+" successful returns, all *zson.Set")
+	}
+}
+
+// ---- C11-V3: validation descends into every container it checks.
+//
+// Value.Validate walks the value and applies extra checks to sets and enums.  The visitor may
+// return SkipContainer only for a value that has nothing below it (an enum); returning it for a
+// set ends the walk there, so a set of enums, of sets or of records is never looked into and a
+// malformed element passes validation only to make a formatter panic.
+func runValidateDescendsIntoSets(c *Ctx, rule string) {
+	p := c.P
+	c.Rule(rule, "the visitor of zed.Value.Validate returns SkipContainer only where the visited type was asserted to be an enum: sets (and every other container) are walked into, so what passes validation is consistent at every depth")
+	fn := p.Func("(super.Value).Validate")
+	if fn == nil {
+		c.Undecided(rule, "(super.Value).Validate", "anchor does not resolve")
+		return
+	}
+	n, bad := 0, 0
+	fns := append([]*ssa.Function{fn}, fn.AnonFuncs...)
+	for _, f := range fns {
+		var enumAsserts, setAsserts []*ssa.TypeAssert
+		for _, b := range f.Blocks {
+			for _, in := range b.Instrs {
+				if ta, ok := in.(*ssa.TypeAssert); ok {
+					switch namedOf(ta.AssertedType) {
+					case "super.TypeEnum":
+						enumAsserts = append(enumAsserts, ta)
+					case "super.TypeSet":
+						setAsserts = append(setAsserts, ta)
+					}
+				}
+			}
+		}
+		for _, b := range f.Blocks {
+			for _, in := range b.Instrs {
+				ret, ok := in.(*ssa.Return)
+				if !ok || len(ret.Results) != 1 {
+					continue
+				}
+				skips := dependsOn(ret.Results[0], func(v ssa.Value) bool {
+					g, ok := v.(*ssa.Global)
+					return ok && g.Name() == "SkipContainer"
+				})
+				if !skips {
+					continue
+				}
+				n++
+				underEnum := false
+				for _, ta := range enumAsserts {
+					if assertDominates(ta, b) {
+						underEnum = true
+					}
+				}
+				if !underEnum {
+					bad++
+					c.Fail(rule, "(super.Value).Validate skips a container", ret.Pos(), "the validation visitor returns SkipContainer for a value that is not an enum: the elements of that container (a set) are never visited, so a set holding an enum with selector 7 of 2 passes Validate and the ZSON writer panics with index out of range")
+				}
+			}
+		}
+		_ = setAsserts
+	}
+	if bad == 0 {
+		c.OK(rule, "(super.Value).Validate skips a container", fn.Pos(), sprint(n)+" SkipContainer returns, all for enums")
+	}
+}
+
+// ---- C17-M1 / sweep: the value a Read returned is tested for nil before it is dereferenced.
+//
+// zio.Reader.Read returns (nil, nil) at end of input.  Code that expects exactly one value in a
+// file (the lake's version file) and dereferences the result unconditionally panics on an empty
+// file, which is what a crash between the creation and the filling of that file leaves behind.
+func runReadResultsNilTested(c *Ctx, rule string) {
+	p := c.P
+	c.Rule(rule, "in the lake packages (C17) / the reader packages (C11), a *zed.Value obtained from a Read() (*zed.Value, error) call is dereferenced only where it was compared with nil: an empty metadata file or section is an error, not a nil-pointer panic")
+	n := 0
+	pkgs := []string{"lake", "lake/journal", "lake/commits", "lake/branches", "lake/pools", "lake/data"}
+	if strings.HasPrefix(rule, "C11") {
+		pkgs = c11ReaderPkgs
+	}
+	if rule == "XREF-read-deref" {
+		pkgs = nil
+		for k := range p.Pkgs {
+			pkgs = append(pkgs, k)
+		}
+	}
+	for _, fn := range p.FuncsIn(pkgs...) {
+		for _, ci := range allCalls(fn) {
+			cc := ci.Common()
+			name := ""
+			if cc.IsInvoke() {
+				name = cc.Method.Name()
+			} else if g := cc.StaticCallee(); g != nil {
+				name = g.Name()
+			}
+			if name != "Read" {
+				continue
+			}
+			sig := calleeSig(cc)
+			if sig == nil || sig.Results().Len() != 2 || !isError(sig.Results().At(1).Type()) {
+				continue
+			}
+			if pt, ok := sig.Results().At(0).Type().(*types.Pointer); !ok || namedOf(pt.Elem()) != "super.Value" {
+				continue
+			}
+			tuple, ok := ci.(ssa.Value)
+			if !ok {
+				continue
+			}
+			for _, r := range *tuple.Referrers() {
+				ex, ok := r.(*ssa.Extract)
+				if !ok || ex.Index != 0 {
+					continue
+				}
+				var tests []*ssa.BinOp
+				var derefs []ssa.Instruction
+				var visit func(v ssa.Value, depth int)
+				seen := map[ssa.Value]bool{}
+				visit = func(v ssa.Value, depth int) {
+					if seen[v] || depth > 4 {
+						return
+					}
+					seen[v] = true
+					for _, rr := range *v.Referrers() {
+						switch x := rr.(type) {
+						case *ssa.BinOp:
+							if isNilConst(x.X) || isNilConst(x.Y) {
+								tests = append(tests, x)
+							}
+						case *ssa.UnOp:
+							if x.Op == token.MUL && x.X == v {
+								derefs = append(derefs, x)
+							}
+						case *ssa.Phi:
+							visit(x, depth+1)
+						}
+					}
+				}
+				visit(ex, 0)
+				for _, d := range derefs {
+					n++
+					ok := false
+					for _, t := range tests {
+						switch t.Op {
+						case token.NEQ:
+							ok = ok || trueEdgeDominatesOrSelf(t, d.Block())
+						case token.EQL:
+							ok = ok || falseEdgeDominatesOrSelf(t, d.Block())
+						}
+					}
+					if !ok {
+						c.Fail(rule, constructName(fn)+" dereferences a Read result untested", d.Pos(), "the value returned by Read is dereferenced without having been compared with nil: Read returns (nil, nil) at end of input, so an empty file or section (a `lake.zng` torn by a crash between its creation and its filling, a VNG metadata section holding no value) makes the caller panic with a nil pointer dereference instead of reporting corrupt input")
+					}
+				}
+			}
+		}
+	}
+	if rule != "XREF-read-deref" {
+		c.OK(rule, "dereferences of Read results", token.NoPos, sprint(n)+" dereferences examined")
+	}
+}
+
+// ---- C02-Q2: an enum symbol is written bare only if it is an identifier.
+//
+// `%name` is the text form of an enum value whose symbol is an identifier.  Any string can be a
+// symbol; one that is not an identifier must be written as a quoted string (which the enum
+// decorator turns back into the symbol), otherwise `%a b(enum("a b",c))` does not parse.
+func runEnumSymbolsQuoted(c *Ctx, rule string) {
+	p := c.P
+	c.Rule(rule, "in zson.Formatter.formatValue a symbol taken from TypeEnum.Symbols reaches the output either through QuotedString or on the true edge of IsIdentifier(symbol): enum values whose symbols are not identifiers still round-trip")
+	fn := p.Func("(*zson.Formatter).formatValue")
+	if fn == nil {
+		c.Undecided(rule, "(*zson.Formatter).formatValue", "anchor does not resolve")
+		return
+	}
+	isSym := func(v ssa.Value) bool {
+		u, ok := v.(*ssa.UnOp)
+		if !ok || u.Op != token.MUL {
+			return false
+		}
+		ia, ok := u.X.(*ssa.IndexAddr)
+		if !ok {
+			return false
+		}
+		return dependsOn(ia.X, func(w ssa.Value) bool {
+			fa, ok := w.(*ssa.FieldAddr)
+			return ok && namedOf(fa.X.Type()) == "super.TypeEnum" && fieldName(fa.X.Type(), fa.Field) == "Symbols"
+		})
+	}
+	isQuote := func(v ssa.Value) bool {
+		call, ok := v.(*ssa.Call)
+		return ok && (calleeName(call.Common()) == "zson.QuotedString" || calleeName(call.Common()) == "zson.QuotedName")
+	}
+	n, bad := 0, 0
+	for _, ci := range allCalls(fn) {
+		if calleeName(ci.Common()) != "(*zson.Formatter).build" {
+			continue
+		}
+		arg := ci.Common().Args[len(ci.Common().Args)-1]
+		if !dependsOnUnless(arg, isSym, isQuote) {
+			continue
+		}
+		n++
+		guarded := false
+		for _, cj := range allCalls(fn) {
+			if calleeName(cj.Common()) == "zson.IsIdentifier" && dependsOn(cj.Common().Args[0], isSym) {
+				if v, ok := cj.(ssa.Value); ok && trueEdgeDominatesOrSelf(v, ci.(ssa.Instruction).Block()) {
+					guarded = true
+				}
+			}
+		}
+		if !guarded {
+			bad++
+			c.Fail(rule, "(*zson.Formatter).formatValue writes an enum symbol bare", ci.Pos(), "the symbol is written after `%` whatever it contains: the value \"a b\" of enum(\"a b\",c) is written `%a b(enum(\"a b\",c))`, which does not parse")
+		}
+	}
+	if bad == 0 {
+		c.OK(rule, "(*zson.Formatter).formatValue writes an enum symbol bare", fn.Pos(), sprint(n)+" bare writes, all under IsIdentifier")
+	}
+}
+
+// ---- C09-B1: loops over a bitmap's words are bounded by its words.
+//
+// vector.Bool keeps one bit per slot in Bits []uint64.  A loop that indexes Bits must run over
+// the number of words, not over Len() (the number of slots): with two or more slots the second
+// index is already past the single word.
+func runBitmapWordLoops(c *Ctx, rule string) {
+	p := c.P
+	c.Rule(rule, "in package vector, an index into a Bool's Bits inside a loop is not bounded by a slot count (a Len() result): Bits has one word per 64 slots, so a slot-bounded loop indexes out of range from the second slot on")
+	n := 0
+	for _, fn := range p.FuncsIn("vector") {
+		for _, b := range fn.Blocks {
+			for _, in := range b.Instrs {
+				ia, ok := in.(*ssa.IndexAddr)
+				if !ok || !inCycle(fn, in) {
+					continue
+				}
+				isBits := dependsOn(ia.X, func(v ssa.Value) bool {
+					fa, ok := v.(*ssa.FieldAddr)
+					return ok && namedOf(fa.X.Type()) == "vector.Bool" && fieldName(fa.X.Type(), fa.Field) == "Bits"
+				})
+				if !isBits {
+					continue
+				}
+				var phis []ssa.Value
+				dependsOn(ia.Index, func(v ssa.Value) bool {
+					if _, ok := v.(*ssa.Phi); ok {
+						phis = append(phis, v)
+					}
+					return false
+				})
+				if len(phis) == 0 {
+					continue
+				}
+				n++
+				// a loop condition that relates the index to a slot count
+				onIndex := func(v ssa.Value) bool {
+					return dependsOn(v, func(w ssa.Value) bool {
+						for _, ph := range phis {
+							if w == ph {
+								return true
+							}
+						}
+						return false
+					})
+				}
+				isLenCall := func(v ssa.Value) bool {
+					call, ok := stripConv(v).(*ssa.Call)
+					return ok && strings.HasSuffix(calleeName(call.Common()), ").Len") && strings.HasPrefix(calleeName(call.Common()), "(*vector.")
+				}
+				slotBound := false
+				for _, bb := range fn.Blocks {
+					for _, ii := range bb.Instrs {
+						cmp, ok := ii.(*ssa.BinOp)
+						if !ok {
+							continue
+						}
+						switch cmp.Op {
+						case token.LSS, token.LEQ, token.GTR, token.GEQ, token.NEQ:
+						default:
+							continue
+						}
+						if (onIndex(cmp.X) && isLenCall(cmp.Y) && !onIndex(cmp.Y)) || (onIndex(cmp.Y) && isLenCall(cmp.X) && !onIndex(cmp.X)) {
+							slotBound = true
+						}
+					}
+				}
+				construct := constructName(fn) + " indexes Bits in a loop"
+				if slotBound {
+					c.Fail(rule, construct, ia.Pos(), "the word index runs up to a slot count (Len()): for vectors of two or more slots the loop indexes Bits out of range - vector.Or of the nulls of an error vector and of its payload panics")
+				} else {
+					c.OK(rule, construct, ia.Pos(), "bounded by the words")
+				}
+			}
+		}
+	}
+	if n == 0 {
+		c.Undecided(rule, "loops over vector.Bool.Bits", "no loop indexing Bits found")
+	}
+}
+
+// ---- C10-P4: an aggregate that can emit a null partial can take one back.
+//
+// When a group-by table spills (or a plan is parallel), each aggregate's ResultAsPartial is
+// written out and later handed to ConsumeAsPartial of a fresh instance.  A group that consumed no
+// value yields a null partial.  An aggregate whose ResultAsPartial can return a null must test
+// its partial for null (itself or in the helper it delegates to) before it decodes or keeps it.
+func runNullPartialsAccepted(c *Ctx, rule string) {
+	p := c.P
+	c.Rule(rule, "for every agg.Function whose ResultAsPartial (or the Result it returns) can yield a null value, ConsumeAsPartial - or a same-package function it passes the partial to - calls IsNull on the partial: the partial of a group that consumed nothing is accepted, in memory and after a spill alike")
+	af := ifaceType(p, "runtime/sam/expr/agg", "Function")
+	if af == nil {
+		c.Undecided(rule, "agg.Function", "anchor interface does not resolve")
+		return
+	}
+	returnsNull := func(fn *ssa.Function, depth int) bool { return false }
+	var rn func(fn *ssa.Function, depth int) bool
+	rn = func(fn *ssa.Function, depth int) bool {
+		if fn == nil || depth > 2 {
+			return false
+		}
+		for _, b := range fn.Blocks {
+			for _, in := range b.Instrs {
+				ret, ok := in.(*ssa.Return)
+				if !ok || len(ret.Results) != 1 {
+					continue
+				}
+				r := ret.Results[0]
+				if u, ok := r.(*ssa.UnOp); ok && u.Op == token.MUL {
+					if g, ok := u.X.(*ssa.Global); ok && (g.Name() == "Null" || g.Name() == "NullType" || strings.HasPrefix(g.Name(), "Null")) {
+						return true
+					}
+				}
+				if call, ok := r.(*ssa.Call); ok {
+					if calleeName(call.Common()) == "super.NewValue" && len(call.Common().Args) == 2 && isNilConst(call.Common().Args[1]) {
+						return true
+					}
+					if g := call.Common().StaticCallee(); g != nil && p.PkgOf(g) == "runtime/sam/expr/agg" && rn(g, depth+1) {
+						return true
+					}
+				}
+			}
+		}
+		return false
+	}
+	returnsNull = rn
+	var testsNull func(fn *ssa.Function, param ssa.Value, depth int) bool
+	testsNull = func(fn *ssa.Function, param ssa.Value, depth int) bool {
+		if depth > 2 {
+			return false
+		}
+		for _, ci := range allCalls(fn) {
+			cc := ci.Common()
+			nm := calleeName(cc)
+			if (nm == "(super.Value).IsNull" || nm == "(*super.Value).IsNull") && len(cc.Args) > 0 && dependsOn(cc.Args[0], func(v ssa.Value) bool { return v == param }) {
+				return true
+			}
+			// len(val.Bytes()) == 0 is the other idiom for "null (or empty)"
+			if (nm == "(super.Value).Bytes" || nm == "(*super.Value).Bytes") && len(cc.Args) > 0 && dependsOn(cc.Args[0], func(v ssa.Value) bool { return v == param }) {
+				if bv, ok := ci.(ssa.Value); ok {
+					for _, r := range *bv.Referrers() {
+						if call, ok := r.(*ssa.Call); ok {
+							if bi, ok := call.Call.Value.(*ssa.Builtin); ok && bi.Name() == "len" {
+								for _, rr := range *call.Referrers() {
+									if _, ok := rr.(*ssa.BinOp); ok {
+										return true
+									}
+								}
+							}
+						}
+					}
+				}
+			}
+			if g := cc.StaticCallee(); g != nil && p.PkgOf(g) == "runtime/sam/expr/agg" {
+				for i, a := range cc.Args {
+					if i < len(g.Params) && dependsOn(a, func(v ssa.Value) bool { return v == param }) && testsNull(g, g.Params[i], depth+1) {
+						return true
+					}
+				}
+			}
+		}
+		return false
+	}
+	n := 0
+	var names []string
+	byName := map[string]*ssa.Function{}
+	for _, fn := range p.FuncsIn("runtime/sam/expr/agg") {
+		if fn.Parent() != nil || fn.Signature.Recv() == nil {
+			continue
+		}
+		rt := fn.Signature.Recv().Type()
+		if !types.Implements(rt, af) && !types.Implements(types.NewPointer(rt), af) {
+			continue
+		}
+		byName[fnName(fn)] = fn
+		if fn.Name() == "ResultAsPartial" {
+			names = append(names, fnName(fn))
+		}
+	}
+	sort.Strings(names)
+	for _, nm := range names {
+		rp := byName[nm]
+		cp := byName[strings.TrimSuffix(nm, "ResultAsPartial")+"ConsumeAsPartial"]
+		if cp == nil || len(cp.Params) < 2 {
+			continue
+		}
+		if !returnsNull(rp, 0) {
+			continue
+		}
+		n++
+		construct := fnName(cp) + " accepts a null partial"
+		if testsNull(cp, cp.Params[1], 0) {
+			c.OK(rule, construct, cp.Pos(), "tests the partial for null")
+		} else {
+			c.Fail(rule, construct, cp.Pos(), "ResultAsPartial of this aggregate can return a null, but ConsumeAsPartial never tests its argument for null: `fuse(x) by key` over {key:\"a\"} {key:\"b\"} {key:\"a\",x:1} works in memory and panics with `invalid partial value: bad type value encoding` as soon as the table spills (`with -limit 1`)")
+		}
+	}
+	if n == 0 {
+		c.Undecided(rule, "aggregates with null partials", "no aggregate whose partial result can be null was found")
+	}
+}
+
+// ---- C03-K2: the vector cache can load every type the VNG writer stores as a primitive column.
+//
+// vng.NewEncoder sends every type that is not a record, array, set, map, union, error or named
+// type to the primitive encoder; that is every TypeOf* singleton of package zed and enum types.
+// The vector cache dispatches on the column's type in loadVals, loadDict and empty, each ending in
+// a panic: a type missing from one of them kills the process when such a column is read.
+func runVcachePrimitiveCoverage(c *Ctx, rule string) {
+	p := c.P
+	c.Rule(rule, "every primitive type of package zed (the TypeOf* singletons) and *zed.TypeEnum has a case in each of the vector cache's type dispatches loadVals, loadDict and empty: any column the VNG writer can produce can be read back through the cache")
+	zp := p.Pkgs[""]
+	if zp == nil {
+		c.Undecided(rule, "package zed", "root package not loaded")
+		return
+	}
+	want := map[string]bool{"super.TypeEnum": true}
+	scope := zp.Types.Scope()
+	for _, nm := range scope.Names() {
+		if tn, ok := scope.Lookup(nm).(*types.TypeName); ok && strings.HasPrefix(nm, "TypeOf") {
+			if _, isStruct := tn.Type().Underlying().(*types.Struct); isStruct {
+				want["super."+nm] = true
+			}
+		}
+	}
+	if len(want) < 15 {
+		c.Undecided(rule, "package zed", "fewer than 15 primitive types found")
+		return
+	}
+	for _, name := range []string{"(*runtime/vcache.loader).loadVals", "(*runtime/vcache.loader).loadDict", "runtime/vcache.empty"} {
+		fn := p.Func(name)
+		if fn == nil {
+			c.Undecided(rule, name, "anchor does not resolve")
+			continue
+		}
+		have := map[string]bool{}
+		for _, b := range fn.Blocks {
+			for _, in := range b.Instrs {
+				if ta, ok := in.(*ssa.TypeAssert); ok {
+					have[namedOf(ta.AssertedType)] = true
+				}
+			}
+		}
+		// the writer builds no dictionary for 8-bit types (NewPrimitiveEncoder), and a column of
+		// type null has no values to put in one
+		exempt := map[string]bool{}
+		if strings.HasSuffix(name, "loadDict") {
+			exempt["super.TypeOfBool"], exempt["super.TypeOfNull"] = true, true
+		}
+		var missing []string
+		for w := range want {
+			if !have[w] && !exempt[w] {
+				missing = append(missing, strings.TrimPrefix(w, "super."))
+			}
+		}
+		sort.Strings(missing)
+		construct := fnName(fn) + " type dispatch"
+		if len(missing) == 0 {
+			c.OK(rule, construct, fn.Pos(), sprint(len(want))+" primitive types covered")
+		} else {
+			c.Fail(rule, construct+" lacks "+strings.Join(missing, ", "), fn.Pos(), "a column of this type is written by the VNG writer and read by the row reader, but the vector cache's dispatch falls into its panic: `{e:%a(enum(a,b))}` written to VNG kills `super dev vector copy` (and any vectorized lake query that loads the column) with `bad or unknown Zed type for vector`")
+		}
+	}
+}
+
+// ---- C06-R1: the sort operator's comparator is built once.
+//
+// sort.Op.setComparator applies -r by flipping the Order of the key evaluators in place, and
+// with explicit keys those evaluators are the operator's own o.fieldResolvers.  It is therefore
+// not idempotent: as long as it writes into that slice, o.comparator must be assigned only there
+// (never reset), or every second stream of a lateral sort comes out in the opposite direction.
+func runSortComparatorBuiltOnce(c *Ctx, rule string) {
+	p := c.P
+	c.Rule(rule, "while sort.Op.setComparator writes into the operator's key evaluators in place, the field Op.comparator is stored only by setComparator: the comparator is built once per operator, so `-r` is applied once and every stream is sorted in the configured direction")
+	sc := p.Func("(*runtime/sam/op/sort.Op).setComparator")
+	if sc == nil {
+		c.Undecided(rule, "(*runtime/sam/op/sort.Op).setComparator", "anchor does not resolve")
+		return
+	}
+	inPlace := false
+	for _, b := range sc.Blocks {
+		for _, in := range b.Instrs {
+			st, ok := in.(*ssa.Store)
+			if !ok {
+				continue
+			}
+			if dependsOn(st.Addr, func(v ssa.Value) bool {
+				fa, ok := v.(*ssa.FieldAddr)
+				return ok && fa.X == sc.Params[0] && fieldName(fa.X.Type(), fa.Field) == "fieldResolvers"
+			}) {
+				if _, isIA := st.Addr.(*ssa.FieldAddr); isIA {
+					if ia, ok := st.Addr.(*ssa.FieldAddr).X.(*ssa.IndexAddr); ok && ia != nil {
+						inPlace = true
+					}
+				}
+			}
+		}
+	}
+	if !inPlace {
+		c.OK(rule, "sort.Op comparator construction", sc.Pos(), "setComparator no longer edits the operator's key evaluators in place; rebuilding it is harmless")
+		return
+	}
+	n, bad := 0, 0
+	for _, fn := range p.FuncsIn("runtime/sam/op/sort") {
+		for _, b := range fn.Blocks {
+			for _, in := range b.Instrs {
+				st, ok := in.(*ssa.Store)
+				if !ok {
+					continue
+				}
+				fa, ok := st.Addr.(*ssa.FieldAddr)
+				if !ok || namedOf(fa.X.Type()) != "runtime/sam/op/sort.Op" || fieldName(fa.X.Type(), fa.Field) != "comparator" {
+					continue
+				}
+				n++
+				if fn != sc {
+					bad++
+					c.Fail(rule, constructName(fn)+" stores Op.comparator", st.Pos(), "the comparator is reset outside setComparator, which flips the key orders in place each time it runs: in `over v => (sort -r k)` the second, fourth, ... stream is emitted ascending")
+				}
+			}
+		}
+	}
+	switch {
+	case n == 0:
+		c.Undecided(rule, "sort.Op comparator construction", "no store to Op.comparator found")
+	case bad == 0:
+		c.OK(rule, "sort.Op comparator construction", sc.Pos(), "stored only by setComparator")
+	}
+}
+
+// ---- C03-F2: a column's nulls are marked loaded only when they are.
+//
+// nulls.fetch uses n.meta == nil as "already loaded".  The marker may be set only once the run
+// lengths were read to their end; set earlier, a transient read error leaves the node marked
+// loaded with an empty bitmap and every later fetch of the cached object returns the column
+// without its nulls.
+func runNullsMarkedLoadedAtEOF(c *Ctx, rule string) {
+	p := c.P
+	c.Rule(rule, "in vcache.nulls.fetch the store that clears n.meta (the loaded marker) is on the true edge of the comparison of the read error with io.EOF: a failed read leaves the nulls to be fetched again")
+	fn := p.Func("(*runtime/vcache.nulls).fetch")
+	if fn == nil {
+		c.Undecided(rule, "(*runtime/vcache.nulls).fetch", "anchor does not resolve")
+		return
+	}
+	n, bad := 0, 0
+	for _, f := range append([]*ssa.Function{fn}, fn.AnonFuncs...) {
+		var eofTests []*ssa.BinOp
+		for _, b := range f.Blocks {
+			for _, in := range b.Instrs {
+				if cmp, ok := in.(*ssa.BinOp); ok && cmp.Op == token.EQL {
+					for _, side := range []ssa.Value{cmp.X, cmp.Y} {
+						if u, ok := side.(*ssa.UnOp); ok {
+							if g, ok := u.X.(*ssa.Global); ok && g.Name() == "EOF" {
+								eofTests = append(eofTests, cmp)
+							}
+						}
+					}
+				}
+			}
+		}
+		for _, b := range f.Blocks {
+			for _, in := range b.Instrs {
+				st, ok := in.(*ssa.Store)
+				if !ok || !isNilConst(st.Val) {
+					continue
+				}
+				fa, ok := st.Addr.(*ssa.FieldAddr)
+				if !ok || namedOf(fa.X.Type()) != "runtime/vcache.nulls" || fieldName(fa.X.Type(), fa.Field) != "meta" {
+					continue
+				}
+				n++
+				ok = false
+				for _, t := range eofTests {
+					if trueEdgeDominatesOrSelf(t, b) {
+						ok = true
+					}
+				}
+				if !ok {
+					bad++
+					c.Fail(rule, "(*runtime/vcache.nulls).fetch marks the nulls loaded", st.Pos(), "n.meta is cleared before the run lengths were read to the end: after one failed ReadAt the node stays marked as loaded with an empty bitmap, and the next fetch of the cached object returns `{a:1,s:\"x\"}` for `{a:1,s:null(string)}`")
+				}
+			}
+		}
+	}
+	switch {
+	case n == 0:
+		c.Undecided(rule, "(*runtime/vcache.nulls).fetch", "the store clearing n.meta was not found")
+	case bad == 0:
+		c.OK(rule, "(*runtime/vcache.nulls).fetch marks the nulls loaded", fn.Pos(), "only at end of the run lengths")
+	}
+}
+
+// ---- C01-O9: only pooled buffers are returned to the pool.
+//
+// zngio's buffer.free() puts the buffer's bytes into a sync.Pool for reuse by later frames.  A
+// buffer literal built around bytes the parser merely borrows (the peeker's read buffer) must
+// never reach free(): the peeker would keep parsing memory that later frames are decompressed into.
+func runOnlyPooledBuffersFreed(c *Ctx, rule string) {
+	p := c.P
+	c.Rule(rule, "in package zngio a buffer constructed by a struct literal outside the pool's own constructors (newBuffer, newBufferFromBytes) never flows - through assignments or phis - to a call or defer of buffer.free: bytes borrowed from the peeker are not handed to the buffer pool")
+	n := 0
+	for _, fn := range p.FuncsIn("zio/zngio") {
+		if strings.HasPrefix(fn.Name(), "newBuffer") {
+			continue
+		}
+		for _, b := range fn.Blocks {
+			for _, in := range b.Instrs {
+				al, ok := in.(*ssa.Alloc)
+				if !ok || namedOf(al.Type()) != "zio/zngio.buffer" {
+					continue
+				}
+				// a literal: some field of it is stored in this function
+				lit := false
+				for _, r := range *al.Referrers() {
+					if fa, ok := r.(*ssa.FieldAddr); ok {
+						for _, rr := range *fa.Referrers() {
+							if _, ok := rr.(*ssa.Store); ok {
+								lit = true
+							}
+						}
+					}
+				}
+				if !lit {
+					continue
+				}
+				n++
+				construct := "borrowed buffer built in " + constructName(fn)
+				seen := map[ssa.Value]bool{}
+				var freed ssa.Instruction
+				var walk func(v ssa.Value)
+				walk = func(v ssa.Value) {
+					if seen[v] || freed != nil || v.Referrers() == nil {
+						return
+					}
+					seen[v] = true
+					for _, r := range *v.Referrers() {
+						switch x := r.(type) {
+						case *ssa.Phi:
+							walk(x)
+						case *ssa.Store:
+							if a, ok := x.Addr.(*ssa.Alloc); ok && x.Val == v {
+								for _, rr := range *a.Referrers() {
+									if ld, ok := rr.(*ssa.UnOp); ok && ld.Op == token.MUL {
+										walk(ld)
+									}
+								}
+							}
+						case *ssa.Defer:
+							if calleeName(&x.Call) == "(*zio/zngio.buffer).free" && len(x.Call.Args) > 0 && x.Call.Args[0] == v {
+								freed = x
+							}
+						case ssa.CallInstruction:
+							if calleeName(x.Common()) == "(*zio/zngio.buffer).free" && len(x.Common().Args) > 0 && x.Common().Args[0] == v {
+								freed = x
+							}
+						}
+					}
+				}
+				walk(al)
+				if freed != nil {
+					c.Fail(rule, construct, freed.Pos(), "a buffer wrapped around borrowed bytes reaches buffer.free(): when the types frame's slice has the capacity of a pooled buffer (a read buffer of 512 KiB or more), the peeker's own read buffer goes into the pool and later frames are decompressed into memory the parser is still reading - `unknown ZNG message frame type`, `malformed zng record` or silently wrong bytes")
+				} else {
+					c.OK(rule, construct, al.Pos(), "never freed")
+				}
+			}
+		}
+	}
+	if n == 0 {
+		c.OK(rule, "borrowed buffers in zio/zngio", token.NoPos, "no buffer literal outside the pool constructors")
+	}
+}
+
+// ---- C09-B2: no bitmap shift by a count that can reach the word width.
+//
+// In Go, shifting a uint64 by 64 yields 0.  A mask computed as `^uint64(0) >> (64 - n&63)` is
+// therefore empty, not full, exactly when n is a multiple of 64 - the classic off-by-a-word in
+// range operations on bitmaps: a null run ending on a 64-slot boundary loses the nulls of its
+// last word.
+func runBitmapShiftCounts(c *Ctx, rule string) {
+	p := c.P
+	c.Rule(rule, "in packages vector and runtime/vcache no shift of a 64-bit word has a count of the form 64 - (x & 63) (which reaches 64 when x is a multiple of 64) unless a test of x & 63 against zero dominates it: masks for runs that end on a word boundary are full, not empty")
+	n := 0
+	for _, fn := range p.FuncsIn("vector", "runtime/vcache") {
+		for _, b := range fn.Blocks {
+			for _, in := range b.Instrs {
+				sh, ok := in.(*ssa.BinOp)
+				if !ok || (sh.Op != token.SHL && sh.Op != token.SHR) {
+					continue
+				}
+				bt, ok := sh.X.Type().Underlying().(*types.Basic)
+				if !ok || (bt.Kind() != types.Uint64 && bt.Kind() != types.Int64 && bt.Kind() != types.Uint) {
+					continue
+				}
+				n++
+				// count = 64 - (x & 63), possibly through conversions
+				cnt := stripConv(sh.Y)
+				sub, ok := cnt.(*ssa.BinOp)
+				if !ok || sub.Op != token.SUB {
+					continue
+				}
+				k, ok := stripConv(sub.X).(*ssa.Const)
+				if !ok || k.Value == nil || k.Value.Kind() != constant.Int || k.Int64() != 64 {
+					continue
+				}
+				and, ok := stripConv(sub.Y).(*ssa.BinOp)
+				if !ok || and.Op != token.AND {
+					continue
+				}
+				m1, ok1 := stripConv(and.X).(*ssa.Const)
+				m2, ok2 := stripConv(and.Y).(*ssa.Const)
+				if !(ok1 && m1.Int64() == 63) && !(ok2 && m2.Int64() == 63) {
+					continue
+				}
+				// guarded by a dominating test of the masked value against zero?
+				guarded := false
+				for _, gb := range fn.Blocks {
+					if len(gb.Instrs) == 0 || gb == b || !gb.Dominates(b) {
+						continue
+					}
+					if iff, ok := gb.Instrs[len(gb.Instrs)-1].(*ssa.If); ok {
+						if cmp, ok := iff.Cond.(*ssa.BinOp); ok && (cmp.Op == token.EQL || cmp.Op == token.NEQ) {
+							if dependsOn(cmp, func(v ssa.Value) bool { return v == and }) {
+								guarded = true
+							}
+						}
+					}
+				}
+				if !guarded {
+					c.Fail(rule, constructName(fn)+" shifts a word by 64 - (x & 63)", sh.Pos(), "the shift count is 64 when x is a multiple of 64, and a 64-bit shift by 64 is 0 in Go: the mask for the last word of a run ending on a word boundary is empty, so the nulls in that word are not set and a column whose null run ends at slot 63, 127, ... reads back non-null through the vector cache")
+				}
+			}
+		}
+	}
+	if n == 0 {
+		c.Undecided(rule, "bitmap shifts", "no 64-bit shift found in the bitmap packages")
+		return
+	}
+	c.OK(rule, "bitmap shifts in vector and vcache", token.NoPos, sprint(n)+" shifts examined")
+}
+
+// ---- C20-O2: the fuse aggregate mixes types in the order they were first seen.
+//
+// Merging record types fixes the field order of the result, so the order in which types are
+// mixed into the schema is part of fuse's contract (the fuse operator follows input order).  The
+// aggregate remembers each shape's first-seen ordinal in a map; Result must lay the shapes out by
+// that ordinal - not iterate the map directly, and not sort by anything else.
+func runFuseAggMixesInSeenOrder(c *Ctx, rule string) {
+	p := c.P
+	c.Rule(rule, "agg.fuse.Result places each remembered shape at its recorded ordinal (a store into a slice indexed by the map's value) before mixing, and calls no sort: the type fuse() reports has its fields in first-seen order, like the fuse operator's output")
+	fn := p.Func("(*runtime/sam/expr/agg.fuse).Result")
+	if fn == nil {
+		c.Undecided(rule, "(*runtime/sam/expr/agg.fuse).Result", "anchor does not resolve")
+		return
+	}
+	construct := "(*runtime/sam/expr/agg.fuse).Result order of mixing"
+	for _, ci := range allCalls(fn) {
+		nm := calleeName(ci.Common())
+		if strings.HasPrefix(nm, "sort.") || strings.HasPrefix(nm, "slices.Sort") {
+			c.Fail(rule, construct, ci.Pos(), "the types are sorted before they are mixed into the schema: the field order of the fused type then follows type ids (the age of the types in the context) instead of the order of the input, so `fuse(this)` reports {b,x,k,a} where the fuse operator outputs {x,k,a,b}")
+			return
+		}
+	}
+	byOrdinal := false
+	ranged := false
+	for _, b := range fn.Blocks {
+		for _, in := range b.Instrs {
+			nx, ok := in.(*ssa.Next)
+			if !ok {
+				continue
+			}
+			ranged = true
+			for _, r := range *nx.Referrers() {
+				ex, ok := r.(*ssa.Extract)
+				if !ok || ex.Index != 2 {
+					continue
+				}
+				// the map value (ordinal) indexes a slice that is stored into
+				for _, rr := range *ex.Referrers() {
+					if ia, ok := rr.(*ssa.IndexAddr); ok && ia.Index == ex {
+						for _, rrr := range *ia.Referrers() {
+							if _, ok := rrr.(*ssa.Store); ok {
+								byOrdinal = true
+							}
+						}
+					}
+				}
+			}
+		}
+	}
+	switch {
+	case !ranged:
+		c.Undecided(rule, construct, "the iteration over the remembered shapes was not found")
+	case byOrdinal:
+		c.OK(rule, construct, fn.Pos(), "shapes are laid out by their first-seen ordinal; no sort")
+	default:
+		c.Fail(rule, construct, fn.Pos(), "the remembered shapes are taken in map iteration order instead of being laid out by their first-seen ordinal: the field order of the type fuse() reports varies from run to run and differs from the fuse operator's")
+	}
+}
